@@ -31,10 +31,10 @@ pub struct ECase {
 }
 
 fn case(words: &[u16]) -> ECase {
-    let p = Profile { max_cas: 5, max_tals: 2, max_objs: 4, versions: 2, fault_16: 0, obj_faults: false, cert_faults: false, pp_faults: false, vary_cfg: true, modules: 2 };
+    let p = Profile { max_cas: 5, max_tals: 2, max_objs: 4, versions: 2, fault_16: 0, obj_faults: false, cert_faults: false, pp_faults: false, vary_cfg: true, modules: 2, rrdp_16: 0, rrdp_repos: 2 };
     let mut sc = single_run(words, &p);
     let n = sc.cas.len();
-    sc.steps.push(Step { publish: vec![1; n], fail_modules: vec![], offline: false, stale: None, foreign_tal_key: vec![], ta_serve: vec![] });
+    sc.steps.push(Step { publish: vec![1; n], fail_modules: vec![], offline: false, stale: None, foreign_tal_key: vec![], ta_serve: vec![], fail_rrdp: vec![] });
     // regular numbering for the second version
     for ca in sc.cas.iter_mut() {
         if ca.versions.len() > 1 {
